@@ -963,6 +963,51 @@ where
         })
     }
 
+    /// A loop body runs once per iteration: what a body written without braces needs
+    /// declared goes into a block around that body, so that iterations don't share it.
+    fn visit_mut_loop_body(&mut self, body: &mut Box<Stmt>) {
+        if body.is_block() {
+            body.visit_mut_with(self);
+            return;
+        }
+
+        let outer_consts = mem::take(&mut self.injecting_consts);
+        let outer_vars = mem::take(&mut self.injecting_vars);
+        let outer_slot_counter = mem::replace(&mut self.slot_counter, 1);
+
+        body.visit_mut_with(self);
+
+        if !self.injecting_consts.is_empty() || !self.injecting_vars.is_empty() {
+            let mut stmts = Vec::with_capacity(3);
+            if !self.injecting_vars.is_empty() {
+                stmts.push(Stmt::Decl(Decl::Var(Box::new(VarDecl {
+                    span: DUMMY_SP,
+                    kind: VarDeclKind::Let,
+                    decls: mem::take(&mut self.injecting_vars),
+                    ..Default::default()
+                }))));
+            }
+            if !self.injecting_consts.is_empty() {
+                stmts.push(Stmt::Decl(Decl::Var(Box::new(VarDecl {
+                    span: DUMMY_SP,
+                    kind: VarDeclKind::Const,
+                    decls: mem::take(&mut self.injecting_consts),
+                    ..Default::default()
+                }))));
+            }
+            stmts.push(mem::replace(&mut **body, Stmt::Empty(EmptyStmt { span: DUMMY_SP })));
+            **body = Stmt::Block(BlockStmt {
+                span: DUMMY_SP,
+                stmts,
+                ..Default::default()
+            });
+        }
+
+        self.injecting_consts = outer_consts;
+        self.injecting_vars = outer_vars;
+        self.slot_counter = outer_slot_counter;
+    }
+
     fn generate_unique_slot_ident(&mut self) -> Ident {
         let ident = if self.slot_counter == 1 {
             private_ident!("_slot")
@@ -1340,6 +1385,35 @@ where
         self.injecting_consts = outer_consts;
         self.injecting_vars = outer_vars;
         self.slot_counter = outer_slot_counter;
+    }
+
+    fn visit_mut_for_stmt(&mut self, for_stmt: &mut ForStmt) {
+        for_stmt.init.visit_mut_with(self);
+        for_stmt.test.visit_mut_with(self);
+        for_stmt.update.visit_mut_with(self);
+        self.visit_mut_loop_body(&mut for_stmt.body);
+    }
+
+    fn visit_mut_for_in_stmt(&mut self, for_in_stmt: &mut ForInStmt) {
+        for_in_stmt.left.visit_mut_with(self);
+        for_in_stmt.right.visit_mut_with(self);
+        self.visit_mut_loop_body(&mut for_in_stmt.body);
+    }
+
+    fn visit_mut_for_of_stmt(&mut self, for_of_stmt: &mut ForOfStmt) {
+        for_of_stmt.left.visit_mut_with(self);
+        for_of_stmt.right.visit_mut_with(self);
+        self.visit_mut_loop_body(&mut for_of_stmt.body);
+    }
+
+    fn visit_mut_while_stmt(&mut self, while_stmt: &mut WhileStmt) {
+        while_stmt.test.visit_mut_with(self);
+        self.visit_mut_loop_body(&mut while_stmt.body);
+    }
+
+    fn visit_mut_do_while_stmt(&mut self, do_while_stmt: &mut DoWhileStmt) {
+        self.visit_mut_loop_body(&mut do_while_stmt.body);
+        do_while_stmt.test.visit_mut_with(self);
     }
 
     fn visit_mut_arrow_expr(&mut self, arrow_expr: &mut ArrowExpr) {
